@@ -334,7 +334,11 @@ func checkHistory(h history) (fs []finding, st stats) {
 			if r1 == nil || r2 == nil {
 				continue
 			}
-			reset := resetBetween(r1.Call, f2.Start)
+			// the two requests captured the cache generation somewhere after their call
+			// stamps and before their fetches started: a reset whose effect may lie in
+			// (min(call1, call2), max(start1, start2)) legitimately separates the flights
+			// (clause (a) even requires the later request not to join the stale flight)
+			reset := resetBetween(min(r1.Call, r2.Call), f2.Start)
 			if f2.Start < f1.End { // overlap
 				if !reset {
 					fs = append(fs, finding{"two-fetches-in-flight", "two backend status fetches for one key were in flight at once with no reset between them", map[string]any{"first": f1, "second": f2, "first_request": r1, "second_request": r2}})
@@ -382,14 +386,6 @@ func newStatusBackend(nextID *atomic.Int64) (*statusBackend, error) {
 	var err error
 	sb.b, err = litefwd.Listen(0, func(c net.Conn, idx int) {
 		defer c.Close()
-		n := sb.inflight.Add(1)
-		defer sb.inflight.Add(-1)
-		for {
-			m := sb.maxIn.Load()
-			if n <= m || sb.maxIn.CompareAndSwap(m, n) {
-				break
-			}
-		}
 		_ = c.SetDeadline(time.Now().Add(20 * time.Second))
 		// handshake frame, then status request frame
 		buf := make([]byte, 0, 512)
@@ -413,6 +409,15 @@ func newStatusBackend(nextID *atomic.Int64) (*statusBackend, error) {
 		if sb.mode.Load() == 1 {
 			return
 		}
+		// a status request is "in flight" from the moment the backend has read it until
+		// the backend has written its answer
+		n := sb.inflight.Add(1)
+		for {
+			m := sb.maxIn.Load()
+			if n <= m || sb.maxIn.CompareAndSwap(m, n) {
+				break
+			}
+		}
 		if d := sb.delay.Load(); d > 0 {
 			time.Sleep(time.Duration(d))
 		}
@@ -425,6 +430,7 @@ func newStatusBackend(nextID *atomic.Int64) (*statusBackend, error) {
 		p = litefwd.AppendVarInt(p, int32(len(js)))
 		p = append(p, js...)
 		_, _ = c.Write(litefwd.FramePayload(p))
+		sb.inflight.Add(-1)
 		sb.served.Add(1)
 		_, _ = io.Copy(io.Discard, c)
 	})
